@@ -1151,12 +1151,12 @@ def check_cases(ctx, cases):
                 return None
             seen = ctx.extra.setdefault("_shrunk", {})
             cls = sig.split(":")[0]
-            if seen.get(cls, 0) >= 2:      # shrink the first cases of a failure class only (time)
-                ctx.fail(seen.get(sig, sig), what, {"case": case, "trace": tr})
+            if seen.get(("n", cls), 0) >= 2:      # shrink the first cases of a failure class only (time)
+                ctx.fail(seen.get(("sig", sig), sig), what, {"case": case, "trace": tr})
                 continue
-            seen[cls] = seen.get(cls, 0) + 1
+            seen[("n", cls)] = seen.get(("n", cls), 0) + 1
             small, ssig = shrink(case, failing)
-            seen[sig] = ssig or sig
+            seen[("sig", sig)] = ssig or sig
             ctx.fail(ssig or sig, what, {"case": small, "trace": real_trace(small)[0]})
     if not ctx.model_ok:
         return
